@@ -408,3 +408,35 @@ Example C08_typed_kinds :
   map rkind (pre_f (filter_inplace typed_v typed_forest)) = [Some [120]; Some [121]; Some [122]; Some [122]; Some [120]]%Z /\
   (forall i, i_did (remake true i) = i_did i) /\ (forall i, remake false i = i).
 Proof. split; [vm_compute; reflexivity|]. split; [vm_compute; reflexivity|]. split; intros i; reflexivity. Qed.
+
+(* ====================================================================================== *)
+(* Glue C08 <-> C04/C07 (theories/Glue/GlueFilter.v).  The copying form above ([filtered], Node.
+   _add_filtered) against what the mutation machine (Mut/Machine.v) does for "Tree.copy(), then filter the
+   copy in place": [op_tree_copy] allocates the copy node by node (fresh identities in pre-order),
+   [op_filter] on the copy is [F] of it (C04_filter).  [Ren v v' a b]: b is a with other identities, and v'
+   answers for a node of b what v answers for the node of a it was copied from.  F commutes with such a
+   renumbering; hence copy-then-filter = F of the source modulo identity, and filtered() = that modulo
+   identity and [dbl] (the leaf copies of D24). *)
+From NT Require Machine WF EffectsMore GlueFilter.
+
+Theorem C08_F_commutes_with_renumbering : forall v v' f f',
+  Forall2 (GlueFilter.Ren v v') f f' -> Forall2 (GlueFilter.Ren v v') (F v f) (F v' f').
+Proof. exact GlueFilter.F_commutes_with_renumbering. Qed.
+Print Assumptions C08_F_commutes_with_renumbering.
+
+Theorem C08_filtered_is_copy_then_filter : forall w sti st vd r w2 (v : nat -> verdict) (mk : info -> info),
+  WF.WFw w -> Machine.get_tree w sti = Some st ->
+  (forall k, k < size_f (Machine.forest_of st) ->
+     EffectsMore.vof vd (Machine.next w + k) = v (nth k (ids (Machine.forest_of st)) 0)) ->
+  (forall x, In x (pre_f (Machine.forest_of st)) -> GlueFilter.cpi (Machine.typed st) None (rinfo x) = rinfo x) ->
+  let w1 := snd (Machine.op_tree_copy w sti) in
+  let tj := length (Machine.trees w) in
+  Machine.op_filter w1 tj 0 vd = (Machine.Ok r, w2) ->
+  exists t1 t2,
+    Machine.get_tree w1 tj = Some t1 /\ Forall2 (GlueFilter.Ren v (EffectsMore.vof vd)) (Machine.forest_of st) (Machine.forest_of t1) /\
+    Machine.get_tree w2 tj = Some t2 /\ Machine.forest_of t2 = F (EffectsMore.vof vd) (Machine.forest_of t1) /\
+    same_modulo_ids (Machine.forest_of t2) (F v (Machine.forest_of st)) /\
+    same_modulo_ids (filtered v mk (Machine.forest_of st)) (dbl (EffectsMore.vof vd) mk (Machine.forest_of t2)) /\
+    Machine.get_tree w2 sti = Some st.
+Proof. exact GlueFilter.copy_then_filter_is_filtered. Qed.
+Print Assumptions C08_filtered_is_copy_then_filter.
